@@ -75,7 +75,6 @@ fn union_is_or(m: usize, k: usize) {
     chk!("m_unchanged", a.m() == m && b.m() == m);
     chk!("blocks_unchanged", a.verif_bits().as_slice().len() == blocks_before);
     cov!("only_in_b", !in_a && in_b);
-    cov!("in_neither_but_after", !in_a && !in_b && a.query(&x));
 }
 
 /// C06: insert(x) on an arbitrary state == state | (insert(x) on the empty filter).
